@@ -89,3 +89,11 @@ Theorem C20_encode_history_independent_reg : forall ffmt c fuel reg0 ops id v,
   fst (encode_e ffmt c fuel id v st) = fst (encode ffmt c (es_reg st) fuel id v None).
 Proof. exact encode_history_independent_reg. Qed.
 Print Assumptions C20_encode_history_independent_reg.
+
+(* EncodeList after any history of Encode, EncodeList (of any element types) and UseRegistry calls *)
+Theorem C20_encode_list_history_independent : forall ffmt c fuel reg0 ops id l,
+  c_fixed c = true -> s_load reg0 <= c_limit0 c -> Forall (op_loadable c) ops ->
+  let st := run_ops ffmt c true fuel ops (enc_init reg0) in
+  fst (encode_list_e ffmt c fuel id l st) = fst (encode_list ffmt c (es_reg st) fuel id l None).
+Proof. exact encode_list_history_independent. Qed.
+Print Assumptions C20_encode_list_history_independent.
